@@ -73,6 +73,8 @@ if __name__ == '__main__':
         sys.exit(main())
     except SystemExit:
         raise
+    except BrokenPipeError:
+        os._exit(2)
     except Exception as e:
         print(f'ANALYSIS-ERROR property={sys.argv[1] if len(sys.argv) > 1 else "?"} checker crashed: {type(e).__name__}: {e}')
         sys.exit(2)
